@@ -29,6 +29,24 @@ def struct_fields(model, name, rel=None):
     return [f["name"] for f in s["fields"]], s
 
 
+def r15_11(run, model):
+    run.rule("R15.11", "what an artifact does not say is not assumed: every field that the validation of a deserialised InterfaceUnit / CoreUnit "
+                       "compares (format version, compiler ABI, package, pinned dependencies, hash) has to be present in the file - no "
+                       "#[serde(default/skip*/flatten)] on the fields of the two unit structs, or a file without a header passes as the "
+                       "current format")
+    n = 0
+    for name in ("InterfaceUnit", "CoreUnit"):
+        flds, st = struct_fields(model, name)
+        for f in st["fields"]:
+            n += 1
+            bad = [a for a in f.get("attrs", []) if a["name"] == "serde" and re.search(r"\b(default|skip\w*|flatten)\b", a["args"])]
+            run.ob("R15.11", f"{name}.{f['name']}|must be present in the file", not bad, site(st["file"], (bad[0] if bad else st["node"])["sp"]),
+                   f"serde attributes: {[a['args'] for a in f.get('attrs', []) if a['name'] == 'serde'] or 'none'}",
+                   witness="an .interface file from which format_version and compiler_abi were deleted (or that predates a format bump) is read as "
+                           "the current format and linked")
+    run.floor("fields of the artifact units", n, 12)
+
+
 def r15_1(run, model, mir):
     run.rule("R15.1", "fields(InterfaceUnit) minus the hash field = fields(InterfaceHashView); compute_hash maps each view field to "
                       "the same-named self field; no #[serde(skip*/default/flatten/with)] on any type reachable from the view")
@@ -490,6 +508,7 @@ def run(run, model):
     run.try_rule(r15_9, model)
     # the file order decides DefIds and export order, both hashed: the inputs are sorted and de-duplicated by identity (shared with C13 R13.5 / R13.7)
     run.try_rule(r15_10, model)
+    run.try_rule(r15_11, model)
     from rules import c03
     run.rule("R15.7", "a changed trait bound changes the interface hash: the hashed exports are FnSchemes, so the bounds of a generic item have "
                       "to be part of FnScheme (shared with C03 R03.10) - today `fn show_all[T: Show]` and `fn show_all[T: Debug]` export the "
